@@ -334,6 +334,160 @@ theorem C06_cli_output (f : Screen.File) (s : Screen) (hs : Screen.load f = .ok 
   | error e => simp [Except.map]
   | ok r => cases r <;> simp [Except.map, pure, Except.pure]
 
+/-! ### any holder, stale score files, the two programs composed (added by the audit) -/
+
+/-- Selection is sound for **any** scores holder, whatever it contains (stale plates scored for an earlier batch,
+    plates observed since, zero-filled cells, duplicates). -/
+theorem C06_selection_sound_any_holder (H : Holder) (hHw : HolderWF H) (s : Screen) (policy : Option Policy)
+    (hpol : PolicyFilters policy) (batch : List Int) (p : Int) (hsel : selectNextPlate H s policy batch = .ok (some p)) :
+    p ∈ s.pids ∧ plateObserved s p = false ∧ p ∉ batch ∧ p ∈ eligible s policy batch
+    ∧ ∃ sp, (p, sp) ∈ H.entries ∧ ∀ q sq, (q, sq) ∈ H.entries → q ∈ eligible s policy batch → sq.lt sp = false := by
+  have hsub := eligible_sub s policy hpol batch
+  unfold selectNextPlate at hsel
+  simp only at hsel
+  split at hsel
+  · cases hsel
+  · obtain ⟨best, hbest, hsel⟩ := bind_ok hsel
+    split at hsel
+    · cases hsel
+      obtain ⟨h1, h2⟩ := plateIdWithMinimumScore_some H hHw (eligible s policy batch)
+      by_cases hE : H.entries.filter (fun e => (eligible s policy batch).contains e.1) = []
+      · rw [h1 hE] at hbest; cases hbest
+      · obtain ⟨p', sp, hp', hmem, hmin⟩ := h2 hE
+        rw [hp'] at hbest; cases hbest
+        rw [List.mem_filter] at hmem
+        have hel : p ∈ eligible s policy batch := by simpa using hmem.2
+        have hc := (mem_candidates s batch p).mp (hsub p hel)
+        refine ⟨hc.1, hc.2.1, hc.2.2, hel, sp, hmem.1, ?_⟩
+        intro q sq hq hqel
+        exact hmin (q, sq) (List.mem_filter.mpr ⟨hq, by simpa using hqel⟩)
+    · cases hsel
+
+/-- ... and it never raises and returns nothing exactly when nothing is allowed, as soon as one allowed plate has a cell -/
+theorem C06_none_iff_any_holder (H : Holder) (hHw : HolderWF H) (s : Screen) (policy : Option Policy)
+    (hpol : PolicyFilters policy) (batch : List Int)
+    (hcov : ∀ x, x ∈ eligible s policy batch → x ∈ H.entries.map Prod.fst) :
+    (∃ r, selectNextPlate H s policy batch = .ok r) ∧
+    (selectNextPlate H s policy batch = .ok none ↔ eligible s policy batch = []) := by
+  have hsub := eligible_sub s policy hpol batch
+  cases hel : eligible s policy batch with
+  | nil => simp [selectNextPlate, hel]
+  | cons x xs =>
+    have hx : x ∈ eligible s policy batch := by rw [hel]; simp
+    have hxk := hcov x hx
+    obtain ⟨e, he, hex⟩ := List.mem_map.mp hxk
+    have hE : H.entries.filter (fun e => (eligible s policy batch).contains e.1) ≠ [] := by
+      intro h0
+      have : e ∈ H.entries.filter (fun e => (eligible s policy batch).contains e.1) :=
+        List.mem_filter.mpr ⟨he, by simpa [hex] using hx⟩
+      rw [h0] at this; cases this
+    obtain ⟨p, sp, hp, hmem, _⟩ := (plateIdWithMinimumScore_some H hHw (eligible s policy batch)).2 hE
+    rw [List.mem_filter] at hmem
+    have hpel : p ∈ eligible s policy batch := by simpa using hmem.2
+    have hpp : p ∈ s.pids := ((mem_candidates s batch p).mp (hsub p hpel)).1
+    have hres : selectNextPlate H s policy batch = .ok (some p) := by
+      unfold selectNextPlate
+      simp only [hel, List.isEmpty_cons, Bool.false_eq_true, if_false]
+      rw [← hel, hp]
+      simp [bind, Except.bind, hpp]
+    exact ⟨⟨_, hres⟩, by simp [hres]⟩
+
+/-- Score files computed for an **earlier, smaller batch** `b0 ⊆ batch` (any chunk count, any total scorers, combined in
+    any order) and selection run with the current batch: the plate returned is unobserved, outside the *current* batch,
+    allowed, minimal among the allowed plates; selection never raises and returns nothing iff nothing is allowed. -/
+theorem C06_stale_scores_selection (s : Screen) (pid : Nat) (b0 batch : List Int) (hb : ∀ x, x ∈ b0 → x ∈ batch)
+    (n : Nat) (hn : 1 ≤ n) (sc : Nat → Scorer) (htot : ∀ i, TotalScorer (sc i)) (hold : Nat → Holder)
+    (hchunks : ∀ i, i < n → scoreChunk s pid b0 n i (sc i) = .ok (hold i))
+    (files : List Holder) (hperm : files.Perm ((List.range n).map hold))
+    (policy : Option Policy) (hpol : PolicyFilters policy)
+    (H : Holder) (hH : Holder.concat (files.map (fun h => Holder.load h.save)) = .ok H) :
+    ((∃ r, selectNextPlate H s policy batch = .ok r) ∧
+      (selectNextPlate H s policy batch = .ok none ↔ eligible s policy batch = [])) ∧
+    ∀ p, selectNextPlate H s policy batch = .ok (some p) →
+      p ∈ s.pids ∧ plateObserved s p = false ∧ p ∉ batch ∧ p ∈ eligible s policy batch
+      ∧ ∃ sp, (p, sp) ∈ H.entries ∧ ∀ q sq, (q, sq) ∈ H.entries → q ∈ eligible s policy batch → sq.lt sp = false := by
+  obtain ⟨H0, hH0, hHw, _, hkeys⟩ := pipeline_entries s pid b0 n hn sc htot hold hchunks files hperm
+  rw [hH] at hH0; cases hH0
+  refine ⟨C06_none_iff_any_holder H hHw s policy hpol batch ?_, fun p hp => C06_selection_sound_any_holder H hHw s policy hpol batch p hp⟩
+  intro x hx
+  exact hkeys.mem_iff.mpr (candidates_mono s b0 batch hb x (eligible_sub s policy hpol batch x hx))
+
+/-- the two command line programs composed: every chunk through `calculate_scores`, the files in any order through
+    `select_next_plate`.  The text written is the id of a plate that is unobserved, outside the batch, allowed and of
+    minimal score among the allowed plates, or `-1` exactly when no plate is allowed; the second program never raises. -/
+theorem C06_cli_pipeline (f : Screen.File) (s : Screen) (hs : Screen.load f = .ok s) (batch : List Int) (n : Nat) (hn : 1 ≤ n)
+    (sc : Nat → Scorer) (htot : ∀ i, TotalScorer (sc i)) (file : Nat → ScoreFile)
+    (hchunks : ∀ i, i < n → cliCalculateScores f batch n i (sc i) = .ok (file i))
+    (files : List ScoreFile) (hperm : files.Perm ((List.range n).map file))
+    (policy : Option Policy) (hpol : PolicyFilters policy) :
+    ∃ H txt, Holder.concat (files.map Holder.load) = .ok H ∧ cliSelectNextPlate f files policy batch = .ok txt ∧
+      (txt = "-1" ∧ eligible s policy batch = [] ∨
+       ∃ p, txt = toString p ∧ p ∈ s.pids ∧ plateObserved s p = false ∧ p ∉ batch ∧ p ∈ eligible s policy batch
+        ∧ ∃ sp, (p, sp) ∈ H.entries ∧ ∀ q sq, (q, sq) ∈ H.entries → q ∈ eligible s policy batch → sq.lt sp = false) := by
+  -- the holders behind the files
+  have hh : ∀ i, i < n → ∃ h, scoreChunk s 0 batch n i (sc i) = .ok h ∧ file i = h.save := by
+    intro i hi
+    have := hchunks i hi
+    unfold cliCalculateScores at this
+    simp only [hs, bind, Except.bind] at this
+    cases hsc : scoreChunk s 0 batch n i (sc i) with
+    | error e => simp [hsc] at this
+    | ok h =>
+      simp only [hsc, pure, Except.pure, Except.ok.injEq] at this
+      exact ⟨h, rfl, this.symm⟩
+  let hold : Nat → Holder := fun i => match scoreChunk s 0 batch n i (sc i) with
+    | .ok h => h
+    | .error _ => Holder.new 0
+  have hhold : ∀ i, i < n → scoreChunk s 0 batch n i (sc i) = .ok (hold i) ∧ file i = (hold i).save := by
+    intro i hi
+    obtain ⟨h, h1, h2⟩ := hh i hi
+    simp only [hold, h1]
+    exact ⟨trivial, h2⟩
+  let L := (List.range n).map hold
+  have hfileL : (List.range n).map file = L.map Holder.save := by
+    simp only [L, List.map_map]
+    apply List.map_congr_left
+    intro i hi
+    exact (hhold i (by simpa using hi)).2
+  obtain ⟨H0, hH0, hHw0, _, hkeys0⟩ := pipeline_entries s 0 batch n hn sc htot hold (fun i hi => (hhold i hi).1) L (List.Perm.refl _)
+  have hLwf : ∀ o ∈ L.map (fun h => Holder.load h.save), HolderWF o := by
+    intro o ho
+    obtain ⟨h, hh', rfl⟩ := List.mem_map.mp ho
+    obtain ⟨i, hi, rfl⟩ := List.mem_map.mp hh'
+    obtain ⟨inp, hinp, _⟩ := bind_ok (show scoreChunk s 0 batch n i (sc i) = .ok (hold i) from (hhold i (by simpa using hi)).1)
+    have := scoreChunk_total s 0 batch n i (sc i) (htot i) inp hinp
+    rw [(hhold i (by simpa using hi)).1] at this
+    have e := Except.ok.inj this
+    rw [e]; simp [HolderWF, Holder.load, Holder.save]
+  have hperm' : (files.map Holder.load).Perm (L.map (fun h => Holder.load h.save)) := by
+    have := hperm.map Holder.load
+    rw [hfileL, List.map_map] at this
+    exact this
+  have hwf : ∀ o ∈ files.map Holder.load, HolderWF o := fun o ho => hLwf o (hperm'.mem_iff.mp ho)
+  have hne : files.map Holder.load ≠ [] := by
+    intro h0
+    have := hperm.length_eq
+    simp at h0; subst h0; simp at this; omega
+  obtain ⟨H, hH, hHe, hHw⟩ := concat_entries _ hwf hne
+  have hLne : L.map (fun h => Holder.load h.save) ≠ [] := by
+    intro h0; have := hperm'.length_eq; rw [h0] at this; simp at this; exact hne (by simpa using this)
+  obtain ⟨H0', hH0', hHe0, _⟩ := concat_entries _ hLwf hLne
+  rw [hH0] at hH0'; cases hH0'
+  have hent : H.entries.Perm H0.entries := by
+    rw [hHe, hHe0]
+    exact (hperm'.map Holder.entries).flatten
+  have hkeys : (H.entries.map Prod.fst).Perm (candidates s batch) := (hent.map Prod.fst).trans hkeys0
+  have hcov : ∀ x, x ∈ eligible s policy batch → x ∈ H.entries.map Prod.fst :=
+    fun x hx => hkeys.mem_iff.mpr (eligible_sub s policy hpol batch x hx)
+  obtain ⟨⟨r, hr⟩, hnone⟩ := C06_none_iff_any_holder H hHw s policy hpol batch hcov
+  refine ⟨H, (match r with | some p => toString p | none => "-1"), hH, ?_, ?_⟩
+  · unfold cliSelectNextPlate
+    simp only [hs, hH, hr, bind, Except.bind, pure, Except.pure]
+    cases r <;> rfl
+  · cases r with
+    | none => exact Or.inl ⟨rfl, hnone.mp hr⟩
+    | some p => exact Or.inr ⟨p, rfl, C06_selection_sound_any_holder H hHw s policy hpol batch p hr⟩
+
 /-! ### the hypotheses are satisfiable (non-vacuity) -/
 
 /-- the chunk holders assumed by `C06_selection_correct` / `C06_none_iff_no_allowed` exist for every
@@ -381,5 +535,12 @@ example : HolderWF (Holder.new 3) := by simp [HolderWF, Holder.new]
 example : conditioned exScreen 0 { parent := 0, sel := [false, false, false, false, true] } 1
     = .ok { parent := 0, sel := [false, false, true, true, false] } := by
   rfl
+
+/-- stale score files: scored for the empty batch (plates 1 and 2 are candidates), selection with batch {2} -/
+example : (∀ x, x ∈ ([] : List Int) → x ∈ [(2 : Int)]) := fun x h => by cases h
+example : ∀ i, i < 3 → ∃ h, scoreChunk exScreen 0 [] 3 i sizeScorer = .ok h :=
+  C06_pipeline_exists exScreen ⟨rfl, rfl⟩ 0 [] 3 (fun _ => sizeScorer) (fun _ => C06_shipped_scorers_total.2.2.2) (Or.inl rfl)
+/-- `HolderWF` of a hand-written stale holder that still lists the batch plate 2 and the observed plate 0 -/
+example : HolderWF { size := 3, scores := [.negInf, .fin 1, .negInf], plateIds := [2, 1, 0], cur := 3 } := rfl
 
 end Batchie.Props.C06
